@@ -156,6 +156,9 @@ def check_links(s, r, viol, counts):
                 vt = l["t"]
                 if abs(float(sett[n][i]) - l["setting"]) > 1e-12 and not s["controls"]:
                     bad("valve-setting-report", "reported setting %.9g differs from the valve setting %.9g: " % (sett[n][i], l["setting"]) + where); return
+                if vt == "TCV" and si == 1 and l["status"] == "ACTIVE" and not s["controls"]:
+                    # a throttle control valve has no internal rule that opens it: only a user command can
+                    bad("tcv-reported-open", "a TCV that nobody opened is reported Open (its setting %.6g is not applied): " % l["setting"] + where); return
                 if si == 2:
                     if vt == "PRV":
                         ok = abs(float(pres[l["b"]][i]) - l["setting"]) <= 1e-5
